@@ -182,7 +182,7 @@ def _(u):
     u.prove("reset.inv", state_ok(u, out, B, N), tags=("C01", "C02"))
 
 
-@unit("cvrp.rowlocal", file=F, func="CVRPEnv._step", props=("C04",))
+@unit("cvrp.rowlocal", file=F, func="CVRPEnv._step", props=("C04", "C14"))
 def _(u):
     N = u.dim("N")
     env = u.obj(F, "CVRPEnv")
@@ -201,7 +201,7 @@ def _(u):
     rowlocal(u, "step", mk_in, lambda u, td: u.run(F, "CVRPEnv._step", td, selfobj=env), requires=req)
 
 
-@unit("cvrp.rowlocal.mask", file=F, func="CVRPEnv.get_action_mask", props=("C04",))
+@unit("cvrp.rowlocal.mask", file=F, func="CVRPEnv.get_action_mask", props=("C04", "C14"))
 def _(u):
     N = u.dim("N")
     from .envlib import rowlocal
@@ -217,7 +217,7 @@ def _(u):
     depot_tour_reward_unit(u, F, "CVRPEnv._get_reward", "CVRPEnv")
 
 
-@unit("cvrp.rowlocal.reward", file=F, func="CVRPEnv._get_reward", props=("C04",))
+@unit("cvrp.rowlocal.reward", file=F, func="CVRPEnv._get_reward", props=("C04", "C14"))
 def _(u):
     from .envlib import depot_tour_reward_rowlocal
 
